@@ -35,6 +35,14 @@ def check(prop, tier, cap, only=None, procs=None, list_only=False, t0=None):
         if only:
             cobs = [o for o in cobs if fnmatch.fnmatchcase(o[0], only)]
         results += common.run_pool("harness.p_c06b", cobs, tier, cap, procs=procs)
+    if prop == "C04":
+        # floating-point folding on symbolic operand values, asked only whether it crashes (all values, specified result or not)
+        from . import p_c02
+
+        fobs = p_c02.crash_obligations(tier)
+        if only:
+            fobs = [o for o in fobs if fnmatch.fnmatchcase(o[0], only)]
+        results += common.run_pool("harness.p_c02", fobs, tier, cap, procs=procs)
     if prop == "C10":
         # a solver's is_true / is_false over query histories (memoised answers): the history harness on the oracle backend
         from . import p_solvers
